@@ -1033,6 +1033,8 @@ def rule_rangecoder(facts):
             def lfw(q, lo_=lo_):
                 if q[0] == "field" and q[1] == "low":
                     return lo_
+                if q[0] == "field" and q[1] == "cachesz":
+                    return 1        # at least the cached byte is pending on entry (the counter's own test is C04.R8's)
                 raise pat.NotEvaluable(q)
             got = pat.reached_under(wl, ptw, 0, lfw, wcalls | set(cw.returns), strict=True)
             flushed = bool(got & wcalls)
